@@ -226,6 +226,25 @@ def run_job(job):
             if i >= len(pa) or i >= len(pb) or _ser(pa[i]) != _ser(pb[i]):
                 diff = i
                 break
+        if diff is None and fast:
+            # second, clock-based cut over what a strategy can observe (hooks, order events, closed trades): whatever carries a
+            # simulated time <= T_k must not depend on candle k either (a simulator whose clock lags behind its data)
+            OBS = ('hook', 'submit', 'reject', 'exec_call', 'exec_ret', 'cancel_call', 'cancel_ret', 'trade_closed')
+
+            def _obs(evs):
+                out_, started_ = [], False
+                for x in evs:
+                    if x['k'] == 'daily':
+                        started_ = True
+                    if started_ and x['k'] in OBS and x['t'] <= t_cut:
+                        out_.append(x)
+                return out_
+            oa, ob = _obs(ev), _obs(B['events'])
+            cnt['pairs_fast_clock_cut'] = cnt.get('pairs_fast_clock_cut', 0) + 1
+            for i in range(max(len(oa), len(ob))):
+                if i >= len(oa) or i >= len(ob) or _ser(oa[i]) != _ser(ob[i]):
+                    diff, pa, pb = i, oa, ob
+                    break
         if diff is None and not fast:
             # second, position-based cut (robust against a simulator whose clock runs ahead together with its data)
             oa, ob = _ordinal_prefix(ev, k, n), _ordinal_prefix(B['events'], k, n)
